@@ -19,6 +19,7 @@ import (
 	"sort"
 	"strings"
 	"sync"
+	"sync/atomic"
 	"time"
 
 	"github.com/restic/restic/internal/backend"
@@ -57,7 +58,12 @@ type c12Backend struct {
 	backend.Backend
 	proc int
 	ctl  *c12Ctl
+	// loadFails: this process can list and delete lock files but not read them (another user's files in
+	// a shared repository, a read error that lasts as long as the command); switched by the process
+	loadFails atomic.Bool
 }
+
+var errC12Unreadable = fmt.Errorf("verif: permission denied (lock file of another user)")
 
 func (b *c12Backend) Properties() backend.Properties {
 	p := b.Backend.Properties()
@@ -132,7 +138,12 @@ func (b *c12Backend) Load(ctx context.Context, h backend.Handle, length int, off
 	if h.Type != backend.LockFile {
 		return b.Backend.Load(ctx, h, length, offset, fn)
 	}
-	return b.sched("load", h.Name, func() (string, error) { return "-", b.Backend.Load(ctx, h, length, offset, fn) })
+	return b.sched("load", h.Name, func() (string, error) {
+		if b.loadFails.Load() {
+			return "unreadable", errC12Unreadable
+		}
+		return "-", b.Backend.Load(ctx, h, length, offset, fn)
+	})
 }
 
 func (b *c12Backend) Save(ctx context.Context, h backend.Handle, rd backend.RewindReader) error {
@@ -202,6 +213,8 @@ func c12Settle(buf []byte, d time.Duration) bool {
 type c12Proc struct {
 	id        int
 	kind      string // locker | remover | remlocker | expired
+	unreadable bool       // remover/remlocker: cannot read lock files while it runs RemoveStaleLocks
+	view      *c12Backend // this process's view of the backend
 	excl      bool
 	age       time.Duration          // expired: age of the lock file
 	aged      *repository.VerifC12Lock // expired: the handle of the aged lock
@@ -219,8 +232,12 @@ func c12RunProc(ctl *c12Ctl, p *c12Proc, repo *repository.Repository) {
 		ctl.rec(append([]string{"mk", ctl.ms(), Itoa(p.id), what}, more...)...)
 	}
 	if p.kind == "remover" || p.kind == "remlocker" {
-		mk("remover-start")
+		mk("remover-start", B(p.unreadable))
+		if p.unreadable {
+			p.view.loadFails.Store(true)
+		}
 		n, err := repository.RemoveStaleLocks(ctx, repo)
+		p.view.loadFails.Store(false)
 		mk("remover-done", Itoa(int(n)), B(err == nil))
 		if p.kind == "remover" {
 			return
@@ -312,14 +329,28 @@ func streamC12(h *H) {
 			if p.kind == "expired" {
 				p.excl = p.excl && h.Intn(2) == 0
 			}
+			if p.kind == "remover" || p.kind == "remlocker" {
+				p.unreadable = h.Intn(2) == 0
+			}
 			procs[i] = p
-			repos[i] = repository.TestOpenBackend(TB, &c12Backend{Backend: base, proc: i, ctl: ctl})
+			p.view = &c12Backend{Backend: base, proc: i, ctl: ctl}
+			repos[i] = repository.TestOpenBackend(TB, p.view)
 			if p.kind == "expired" {
 				l, err := repository.VerifC12AgedLock(repos[i], p.age, p.excl)
 				if err != nil {
 					panic(err)
 				}
 				p.aged = l
+			}
+		}
+		// with a remover that cannot read lock files the other lockers keep their locks a little longer
+		for _, p := range procs {
+			if p.unreadable {
+				for _, q := range procs {
+					if q.kind == "locker" && h.Intn(2) == 0 {
+						q.refreshes = 2
+					}
+				}
 			}
 		}
 		h.Case("sched")
